@@ -509,6 +509,8 @@ def gen_case(rng, tier="quick", kind=None):
                                                                      ["cmp", "==", ["f", "a", ["t", 1]], ["f", "a", ["t", k]]]]]])
             if rng.random() < 0.6:
                 steps.append(["with_", [["q", "Query", [["from_", [["t", 0]]], ["select", ["id", "a"]]], {}], name]])
+    if kind == "select" and case["obj"][0] == "q" and rng.random() < 0.3:
+        share_terms(rng, case)
     case["others"] = []
     if rng.random() < 0.5:
         case["others"].append(rng.choice([rfield(rng, nt), ["t", 0], rtable(rng, 0), 3, "abc", None, rselect_query(rng, nt, 0, 1, simple=True)]))
@@ -530,3 +532,44 @@ def _same_width_setop(rng, base, nt):
     ops = [[rng.choice(["union", "union_all", "intersect", "except_of", "minus"]), one()] for _ in range(rng.choice([1, 1, 2, 3]))]
     ob = [[rng.choice([rng.choice(COLS), ["f", "a", ["t", 0]]]), rng.choice([None, "asc", "desc"])]] if rng.random() < 0.4 else []
     return ["setop", one(), ops, ob, rng.choice([None, None, 5, 0]), rng.choice([None, None, 2])]
+
+
+def share_terms(rng, case):
+    """one term OBJECT in several places of a statement (select list + FILTER, WHERE + select list, GROUP BY + ORDER BY ...):
+    what a rendering does to it in one place is seen by the next rendering in the other"""
+    steps = case["obj"][2]
+    f = lambda: ["f", rng.choice(COLS), ["t", 0], None]     # noqa: E731
+    pool = []
+    crit = rng.choice([["isin", f(), ["pylist", [1, 2]]], ["between", f(), 1, 9], ["isnull", f()], ["cmp", ">", f(), 3],
+                       ["not", ["cmp", "==", f(), "x"]], ["and", ["cmp", ">", f(), 1], ["cmp", "<", f(), 9]], ["bitand", f(), 4]])
+    pool.append(["as", crit, rng.choice(["is_small", "flag", "c 1"])] if rng.random() < 0.75 else crit)
+    pool.append(rng.choice([["f", rng.choice(COLS), ["t", 0], rng.choice(ALIASES)], ["fn", "LOWER", [f()], "lw"],
+                            ["arith", "+", f(), 1, "plus"], ["case", [[["cmp", ">", f(), 1], ["v", "big"]]], ["v", "small"], "sz"],
+                            ["agg", "Sum", [f()], {"alias": "s"}]]))
+    case["terms"] = pool
+    X0, X1 = ["x", 0], ["x", 1]
+    nf = rng.choice([1, 1, 1, 2])
+    agg = ["agg", rng.choice(["Count", "Sum", "Max"]), ["*" if rng.random() < 0.3 else f()],
+           {"filter": [X0] + ([["cmp", "<", f(), 100]] if nf == 2 else []), "alias": rng.choice([None, "n"])}]
+    if agg[1] != "Count" and agg[2] == ["*"]:
+        agg[2] = [f()]
+    extra = []
+    r = rng.random()
+    if r < 0.5:
+        extra.append(["select", [X0, agg]])
+    elif r < 0.7:
+        extra += [["select", [agg]], ["where", [X0]]]
+    else:
+        extra += [["select", [X0, X1]], ["where", [X0]]]
+    if rng.random() < 0.5:
+        extra.append(["select", [X1]])
+    if rng.random() < 0.3:
+        extra.append(["groupby", [X1]])
+    if rng.random() < 0.3:
+        extra.append(["orderby", [X1 if rng.random() < 0.6 else X0]])
+    if rng.random() < 0.2:
+        extra.append(["having", [X0]])
+    if rng.random() < 0.25:
+        extra.append(["select", [["an", "Sum", [f()], {"over": [X1], "orderby": [[X1, None]], "filter": [X0]}]]])
+    pos = next((i for i, st in enumerate(steps) if st[0] == "select"), len(steps) - 1) + 1
+    steps[pos:pos] = extra
